@@ -1,13 +1,12 @@
 /-
 Driver for C04: reads cases produced by the Go harness (which compiled the expression with the REAL
 `stateful.NewExpression` and evaluated it over a history of scopes through `Eval`, `Type`+`EvalBool`, direct
-`EvalX`, on the expression and on `CopyReset` copies), replays every case on the model (`World.step`: `evalC` with
-its cache and the lambda-node states shared by all copies, `Funcs` per copy; float operations = Lean `Float`,
-table/signatures = regenerated `Kap.C04.Gen`) and on the reference semantics (`Kap.C04.expect`, one history per
-group), and judges
-  * the property itself on the OBSERVED answer (SPECFAIL, checked first; a failure that is exactly the recorded
-    deviation `nested-lambda-state-shared` — the expression has a lambda node with a stateful body, at least two copies
-    have been evaluated, and the observed answer is the one the shared lambda state gives — is reported as KNOWN), and
+`EvalX`, on the expression and on `CopyReset` copies), replays every case on the model (`World.step` / `World.copy`:
+`evalC` with the copy's own `Funcs`, lambda-node states and copied node evaluators, everything else shared; float
+operations = Lean `Float`, table/signatures = regenerated `Kap.C04.Gen`) and on the reference semantics
+(`Kap.C04.expect`, one history per group), and judges
+  * the property itself on the OBSERVED answer (SPECFAIL, checked first; no recorded deviation is left: the clause for
+    `nested-lambda-state-shared` went with `fix:` dcda92d), and
   * observed = model (MISMATCH).
 -/
 import Kap.Spec.C04
@@ -284,10 +283,10 @@ structure St where
   expr : Option E := none
   ora : Ora := {}
   compiled : Bool := false
-  world : World Float := { cache := .leaf, lams := fun _ => FnBase.init floatOps, groups := fun _ => FnBase.init floatOps }
+  world : World Float :=
+    { shared := .leaf, own := fun _ => .leaf, lams := fun _ _ => FnBase.init floatOps, groups := fun _ => FnBase.init floatOps }
   insts : List Nat := []           -- the copies that exist
   asked : List Nat := []           -- the copies that have been evaluated
-  known : Option String := none    -- the recorded deviation was observed (detail of the first occurrence)
   hists : List (Nat × Option (Hist Float)) := []
   branches : List String := []
   evals : Nat := 0
@@ -323,12 +322,6 @@ def specOn (l obsC : String) : Expect Float → Except (String × String) String
   | .mustErr =>
     if obsC != "err" then .error ("type-error-is-error", s!"{l}: reference err observed {obsC}") else .ok "spec-illtyped-err"
 
-/-- deviation clause of the recorded finding `nested-lambda-state-shared`: the expression has a lambda node whose body
-calls a stateful function, at least two copies (groups) have been evaluated, and the observed answer is the one ONE
-state per lambda node shared by all copies gives (the model's answer). Any other failure of the property stays a SPECFAIL. -/
-def deviation (e : E) (asked : List Nat) (obsC : String) (model : Outcome V) : Bool :=
-  statefulLam e && asked.length ≥ 2 && obsC == renderOut model
-
 def judge (_id : String) (lines : Array String) : Verdict := Id.run do
   let mut st : St := {}
   for l in lines do
@@ -361,9 +354,9 @@ def judge (_id : String) (lines : Array String) : Verdict := Id.run do
       st := st.addBr [if m == "ok" then "compile-ok" else "compile-err"]
     | ["inst", k] =>
       let some k := k.toNat? | return .badop l
-      -- CopyReset: fresh functions for this copy; cache and lambda-node states stay where they are
-      let w := st.world
-      st := { st with world := { w with groups := fun j => if j = k then FnBase.init floatOps else w.groups j },
+      -- CopyReset: fresh functions and fresh lambda nodes for this copy (World.copy); the shared node evaluators stay
+      let ctx := mkCtx st.ora
+      st := { st with world := st.world.copy ctx k,
                       insts := if st.insts.contains k then st.insts else k :: st.insts, hists := setI st.hists k (some {}) }
       st := st.addBr ["copy-reset"]
     | "pt" :: k :: ptoks =>
@@ -386,14 +379,17 @@ def judge (_id : String) (lines : Array String) : Verdict := Id.run do
         (if refs.contains "time" then ["pt-time"] else []) ++
         (if refs.any (fun n => n != "time" && (assoc pt.fields n).isNone && (assoc pt.tags n).isSome) then ["pt-tag"] else []) ++
         (if refs.any (fun n => n != "time" && (assoc pt.fields n).isNone && (assoc pt.tags n).isNone) then ["pt-missing"] else [])
-      let brs := brs ++ (match fillScope refs pt with | some σ => brOf ctx σ e st.world.cache | none => [])
+      let brs := brs ++ (match fillScope refs pt with | some σ => brOf ctx σ e (st.world.cacheOf e k) | none => [])
       if brs.contains "dyn-typeflip" then st := { st with flipSeen := true }
       st := st.addBr brs
       if obsC == "panic" then return .specfail "no-trap" s!"{l}: EvalPredicate panicked"
-      -- the model's answer: the copy's own functions, the shared cache and lambda-node states
+      -- the model's answer: the copy's own functions and lambda-node states, its own and the shared node evaluators
       let w := st.world
-      let (o, c', fs') := evalPoint ctx e pt w.cache { toFnBase := w.groups k, lams := w.lams }
-      let w' : World Float := { cache := c', lams := fs'.lams, groups := fun j => if j = k then fs'.toFnBase else w.groups j }
+      let (o, c', fs') := evalPoint ctx e pt (w.cacheOf e k) { toFnBase := w.groups k, lams := w.lams k }
+      let w' : World Float :=
+        { shared := c', own := fun j => if j = k then c' else w.own j,
+          lams := fun j => if j = k then fs'.lams else w.lams j,
+          groups := fun j => if j = k then fs'.toFnBase else w.groups j }
       let mut newH : Option (Hist Float) := none
       match hs with
       | some h =>
@@ -401,11 +397,7 @@ def judge (_id : String) (lines : Array String) : Verdict := Id.run do
         newH := h'
         match specOn l obsC ex with
         | .ok tag => st := st.addBr [tag]
-        | .error (cl, d) =>
-          if deviation e st.asked obsC o then
-            st := { st with known := st.known <|> some d }
-            st := st.addBr ["known-lambda-state-shared"]
-          else return .specfail cl d
+        | .error (cl, d) => return .specfail cl d
       | none => st := st.addBr ["spec-history-unfixed"]
       if obsC != renderOut o then return .mismatch s!"{l}: model {renderOut o} observed {obsC}"
       if obsC.startsWith "ok" then st := { st with okSeen := true }
@@ -422,7 +414,7 @@ def judge (_id : String) (lines : Array String) : Verdict := Id.run do
       let obsC := match obs with
         | ["ok", v] => s!"ok {canonObs v}"
         | o => " ".intercalate o
-      let brs := brOf ctx σ e st.world.cache
+      let brs := brOf ctx σ e (st.world.cacheOf e k)
       if brs.contains "dyn-typeflip" then st := { st with flipSeen := true }
       st := st.addBr (("path-" ++ path) :: brs)
       st := { st with evals := st.evals + 1 }
@@ -452,11 +444,7 @@ def judge (_id : String) (lines : Array String) : Verdict := Id.run do
           newH := h'
           match specOn l obsC ex with
           | .ok tag => st := st.addBr [tag]
-          | .error (cl, d) =>
-            if deviation e st.asked obsC o then
-              st := { st with known := st.known <|> some d }
-              st := st.addBr ["known-lambda-state-shared"]
-            else return .specfail cl d
+          | .error (cl, d) => return .specfail cl d
         | none => st := st.addBr ["spec-history-unfixed"]
         -- the tie
         if obsC != renderOut o then return .mismatch s!"{l}: model {renderOut o} observed {obsC}"
@@ -464,11 +452,6 @@ def judge (_id : String) (lines : Array String) : Verdict := Id.run do
         st := st.addBr [if obsC.startsWith "ok" then "out-ok" else "out-err"]
         st := { st with world := w', hists := setI st.hists k newH }
     | _ => return .badop l
-  match st.known with
-  | some d =>
-    return .known "nested-lambda-state-shared"
-      s!"a stateful function inside a nested lambda ran over the points of all {st.asked.length} groups that asked: {d}"
-  | none => pure ()
   let nt := st.okSeen && st.evals ≥ 2 && (st.flipSeen || (match st.expr with | some e => stateful e | none => false))
   let brs := st.branches.reverse ++
     (match st.expr with
